@@ -23,7 +23,7 @@
    interleaving by position), step_fwd/step_back, child_path: correspondence / oracle cross-check only. "Text order" of children is a
    property of parser output and is checked by the oracle. *)
 From Coq Require Import List String Bool Arith.
-From PF Require Import models.Traverse models.Walk gen.TraverseTables proofs.TraverseProofs proofs.WalkProofs models.Interleave proofs.InterleaveProofs.
+From PF Require Import models.Traverse models.Walk gen.TraverseTables proofs.TraverseProofs proofs.WalkProofs models.Interleave proofs.InterleaveProofs models.WalkShallowModes proofs.WalkShallowModesProofs.
 From Coq Require Import Sorted Permutation.
 Import ListNotations.
 Local Open Scope string_scope.
@@ -135,3 +135,26 @@ Example C14_nonvacuous :
   walk_both false t = [(0, false); (1, false); (1, true); (3, false); (3, true); (0, true)] /\
   exec Fwd [IdxStep "body"; EndOf "orelse"; RetNone] (fun f => if String.eqb f "body" then 2 else 1) 1 = Some ("orelse", 0).
 Proof. vm_compute. repeat split; reflexivity. Qed.
+
+(* ---- on='leave' / on='both' without recursion (models/WalkShallowModes.v) ---- *)
+Theorem C14_both_with_recursion_is_the_loop_already_proved : forall back t, walk_both_r back true t = walk_both back t.
+Proof. exact walk_both_r_true. Qed.
+Print Assumptions C14_both_with_recursion_is_the_loop_already_proved.
+
+Theorem C14_both_without_recursion_enters_and_leaves_the_accepted_children_only : forall back t,
+  walk_both_r back false t
+  = let 'RNode i ok kids := t in ((if ok then [(i, false)] else []) ++ level_both (ord back kids) ++ (if ok then [(i, true)] else []))%list.
+Proof. exact walk_both_shallow. Qed.
+Print Assumptions C14_both_without_recursion_enters_and_leaves_the_accepted_children_only.
+
+Theorem C14_leave_without_recursion_yields_the_accepted_children_then_the_root : forall back t,
+  walk_leave_r back false t = let 'RNode i ok kids := t in (level (ord back kids) ++ (if ok then [i] else []))%list.
+Proof. exact walk_leave_shallow. Qed.
+Print Assumptions C14_leave_without_recursion_yields_the_accepted_children_then_the_root.
+
+Theorem C14_the_three_modes_agree_on_one_level : forall (kids : list (option rtree)) f back, List.length kids <= f ->
+  run_enter f back false kids = level kids
+  /\ map fst (filter (fun e => negb (snd e)) (level_both kids)) = level kids
+  /\ map fst (filter (fun e => snd e) (level_both kids)) = level kids.
+Proof. intros kids f back H. repeat split; [now apply run_enter_level | apply level_both_entries | apply level_both_leaves]. Qed.
+Print Assumptions C14_the_three_modes_agree_on_one_level.
